@@ -293,6 +293,8 @@ def bind(t: ast.AST, v: Any, env: dict[str, Any]) -> None:
         env[t.id] = v
     elif isinstance(t, ast.Attribute) and isinstance(t.value, ast.Name) and isinstance(env.get(t.value.id), types.SimpleNamespace):
         setattr(env[t.value.id], t.attr, v)
+    elif isinstance(t, ast.Subscript) and isinstance(t.value, ast.Name) and isinstance(env.get(t.value.id), (dict, list)) and not isinstance(t.slice, ast.Slice):
+        env[t.value.id][ev(t.slice, env)] = v
     elif isinstance(t, (ast.Tuple, ast.List)) and any(isinstance(e, ast.Starred) for e in t.elts):
         vals = list(v)
         i = next(k for k, e in enumerate(t.elts) if isinstance(e, ast.Starred))
@@ -372,6 +374,30 @@ def run(stmts: list[ast.stmt], env: dict[str, Any], funcs: dict[str, ast.Functio
             pass
         elif isinstance(s, ast.Expr) and isinstance(s.value, ast.Constant):
             pass
+        elif isinstance(s, ast.Try):
+            try:
+                try:
+                    run(s.body, env, funcs, depth)
+                except Raised as e:
+                    for h in s.handlers:
+                        names = [] if h.type is None else [un(x) for x in (h.type.elts if isinstance(h.type, ast.Tuple) else [h.type])]
+                        if h.type is None or e.exc_name in names or "Exception" in names or "BaseException" in names:
+                            if h.name:
+                                env[h.name] = e
+                            try:
+                                run(h.body, env, funcs, depth)
+                            except Raised as e2:
+                                if e2.exc_name == "":       # bare `raise` inside the handler
+                                    raise e
+                                raise
+                            break
+                    else:
+                        raise
+                else:
+                    run(s.orelse, env, funcs, depth)
+            finally:
+                if s.finalbody:
+                    run(s.finalbody, env, funcs, depth)
         elif isinstance(s, ast.Raise):
             exc = s.exc.func if isinstance(s.exc, ast.Call) else s.exc
             raise Raised("raise reached", un(exc) if exc is not None else "")
@@ -384,7 +410,20 @@ def call(fn: ast.FunctionDef, args: list[Any], kws: dict[str, Any] | None = None
          depth: int = 0) -> Any:
     names = [a.arg for a in fn.args.args]
     env = dict(zip(names, args))
-    env.update(kws or {})
+    if fn.args.vararg is not None:
+        env[fn.args.vararg.arg] = tuple(args[len(names):])
+    elif len(args) > len(names):
+        raise TypeError(f"{fn.name}() takes {len(names)} positional arguments but {len(args)} were given")
+    known = set(names) | {a.arg for a in fn.args.kwonlyargs}
+    extra = {k: v for k, v in (kws or {}).items() if k not in known}
+    if fn.args.kwarg is not None:
+        env[fn.args.kwarg.arg] = extra
+    elif extra:
+        raise TypeError(f"{fn.name}() got an unexpected keyword argument {sorted(extra)[0]!r}")
+    env.update({k: v for k, v in (kws or {}).items() if k in known})
+    for a, d in zip(fn.args.kwonlyargs, fn.args.kw_defaults):
+        if a.arg not in env and d is not None:
+            env[a.arg] = ev(d, {}, funcs, depth)
     dflt = fn.args.defaults
     for nme, d in zip(names[len(names) - len(dflt):], dflt):
         if nme not in env:
